@@ -2,6 +2,7 @@ package main
 
 import (
 	"go/token"
+	"go/types"
 
 	"golang.org/x/tools/go/ssa"
 )
@@ -434,4 +435,143 @@ func init() {
 		isAL := func(v ssa.Value) bool { return matchField(fieldOfLoad(v), cst+".StateDB.stateAccessList") }
 		c.Dom("recorded-on-every-read", f, rets, "return", GSites("stateAccessList.StorageRead(addr, key)", rec), GCond("stateAccessList == nil", f, Cmp(isAL, token.EQL, Nil())))
 	})
+}
+
+func init() {
+	extendProp("C16", "While the bottom diff layer is flattened into the disk layer, the surviving layer above it is write-locked: in layerTree.cap the partial persist of the parent runs behind diff.lock.Lock(), so a concurrent reader never walks down to the disk layer that the flatten is about to mark stale.", nil, func(c *Ctx) {
+		c.Rule("ORDER/C16.caplock")
+		pd := "triedb/pathdb"
+		f := c.Fn(pd, "(*layerTree).cap")
+		if f == nil {
+			return
+		}
+		locks := c.CallsWhere(f, "(*sync.RWMutex).Lock", func(cc *ssaCall) bool {
+			fa, ok := cc.Args[0].(*ssa.FieldAddr)
+			return ok && fieldAddrName(fa) == pd+".diffLayer.lock"
+		})
+		// the partial persist (force == false) is the flatten that happens under the child's lock
+		partial := c.CallsWhere(f, "(*"+pd+".diffLayer).persist", func(cc *ssaCall) bool { return ConstBool(false)(cc.Args[1]) })
+		c.Expect(1, len(partial), "partial persist in layerTree.cap")
+		c.Dom("flatten-under-child-lock", f, partial, "parent flattened", GSites("diff.lock.Lock()", locks))
+	})
+
+	extendProp("C17", "State written back by a rollback also refreshes the clean caches: every caller of writeStates/writeNodes passes a cache (never the nil constant), so flat reads after a rollback cannot be served stale values from the shared clean cache.", nil, func(c *Ctx) {
+		c.Rule("CONSTARG/C17.cleancache")
+		pd := "triedb/pathdb"
+		n := 0
+		for _, f := range c.AllFuncs(pd) {
+			for _, s := range cat(c.Calls(f, pd+".writeStates"), c.Calls(f, pd+".writeNodes")) {
+				n++
+				c.Funcs[f] = true
+				a := s.Instr.(*ssa.Call).Call.Args
+				c.Check(!Nil()(a[len(a)-1]), "cache-arg/"+fnName(f), s.Pos(), "the clean cache is handed to the writer", fnName(f)+" writes states/nodes with a nil clean cache: the entries cached earlier keep their old values and are served after the write")
+			}
+		}
+		c.Expect(4, n, "writeStates/writeNodes call sites")
+	})
+
+	stale := func(id string) {
+		extendProp(id, "An index reader that is refreshed drops the cached block reader of the block that was last when it was opened: in indexReader.refresh the cached reader is released using the descriptor list held before it is reloaded.", nil, func(c *Ctx) {
+			c.Rule("ORDER/" + id + ".refresh")
+			pd := "triedb/pathdb"
+			f := c.Fn(pd, "(*indexReader).refresh")
+			if f == nil {
+				return
+			}
+			c.Funcs[f] = true
+			dels := c.MapWrites(f, pd+".indexReader.readers", true)
+			c.Expect(1, len(dels), "release of a cached block reader in refresh")
+			sts := c.Stores(f, pd+".indexReader.descList")
+			c.Expect(1, len(sts), "reload of the descriptor list in refresh")
+			for _, d := range dels {
+				key := d.Instr.(*ssa.Call).Call.Args[1]
+				fromOld := Mentions(func(v ssa.Value) bool { return matchField(fieldOfLoad(v), pd+".indexReader.descList") })(key)
+				after := false
+				for _, s := range sts {
+					if instrReaches(s.Instr, d.Instr) {
+						after = true
+					}
+				}
+				c.Check(fromOld && !after, "old-last-block/"+fnName(f), d.Pos(), "the released reader is the last block of the list held before the reload", "refresh releases the cached reader of the last block of the reloaded list: when the writer rotated into a new block the previously-last block keeps its stale cached content and lookups in it return too-old ids")
+			}
+		})
+	}
+	stale("C18")
+	stale("C19")
+
+	extendProp("C20", "The journal header's disk root is read after the disk layer was terminated (background flush waited for): in Database.Journal the read of the persisted account-trie root lies behind disk.terminate() with its error tested, so the journal never names a pre-flush root and is not discarded on reload.", nil, func(c *Ctx) {
+		c.Rule("ORDER/C20.journalroot")
+		pd := "triedb/pathdb"
+		f := c.Fn(pd, "(*Database).Journal")
+		if f == nil {
+			return
+		}
+		rd := c.Calls(f, "core/rawdb.ReadAccountTrieNode")
+		c.Expect(1, len(rd), "read of the persisted root in Journal")
+		c.Dom("root-after-terminate", f, rd, "persisted root read for the journal header", GErrChecked("disk.terminate()", c.Calls(f, "(*"+pd+".diskLayer).terminate")))
+	})
+
+	extendProp("C22", "Deleted slots reloaded from the journal are nil again: in the legacy snapshot's journal loader a storage value is stored into the rebuilt slot map as read only behind len(value) > 0 (RLP loses nil-ness; the fast iterator recognises tombstones by nil).", []string{"core/state/snapshot"}, func(c *Ctx) {
+		c.Rule("DOM/C22.tombstones")
+		f := c.Fn("core/state/snapshot", "iterateJournal")
+		if f == nil {
+			return
+		}
+		c.Funcs[f] = true
+		var nonNil []Site
+		n := 0
+		eachInstr(f, func(in ssa.Instruction) {
+			mu, ok := in.(*ssa.MapUpdate)
+			if !ok {
+				return
+			}
+			mt, ok := mu.Map.Type().Underlying().(*types.Map)
+			if !ok {
+				return
+			}
+			if sl, ok := mt.Elem().Underlying().(*types.Slice); !ok || !isByteType(sl.Elem()) {
+				return
+			}
+			n++
+			if !Nil()(mu.Value) {
+				nonNil = append(nonNil, Site{f, in})
+			}
+		})
+		c.Expect(2, n, "slot/account map fills in iterateJournal")
+		c.Dom("value-only-if-nonempty", f, nonNil, "journalled value stored as read", GCond("len(value) > 0", f, Cmp(Len(Any()), token.GTR, ConstInt(0))))
+	})
+
+	extendProp("C23", "The prefixed table view builds each key of a call from its own copy of the prefix: no two append calls in a table method share the same base slice, so one bound of a range cannot overwrite the other through spare capacity.", nil, func(c *Ctx) {
+		c.Rule("ALIAS/C23.tablekeys")
+		n := 0
+		for _, f := range c.FuncsInFiles("core/rawdb", "table.go") {
+			bases := map[ssa.Value][]ssa.Instruction{}
+			eachInstr(f, func(in ssa.Instruction) {
+				call, ok := in.(*ssa.Call)
+				if !ok {
+					return
+				}
+				if b, ok := call.Call.Value.(*ssa.Builtin); !ok || b.Name() != "append" {
+					return
+				}
+				base := call.Call.Args[0]
+				if _, isConst := base.(*ssa.Const); isConst {
+					return
+				}
+				bases[base] = append(bases[base], in)
+			})
+			for base, uses := range bases {
+				n++
+				c.Funcs[f] = true
+				_ = base
+				c.Check(len(uses) == 1, "own-prefix/"+fnName(f), uses[0].Pos(), "each appended key starts from its own prefix slice", fnName(f)+" appends to the same base slice more than once: with spare capacity the later append overwrites the bytes of the earlier key (a range's start bound is replaced by its end bound)")
+			}
+		}
+		c.Expect(10, n, "prefixed keys built in table.go")
+	})
+}
+
+func isByteType(t types.Type) bool {
+	b, ok := t.Underlying().(*types.Basic)
+	return ok && b.Kind() == types.Uint8
 }
